@@ -123,6 +123,18 @@ func (p *Path) newInput(name string, sort Sort, lo, hi *big.Int) *Term {
 	p.inputSeen[name] = n + 1
 	full := fmt.Sprintf("%s#%d", name, n)
 	smtName := "|" + full + "|"
+	if mv, ok := p.eng.fixedModel[full]; ok {
+		// debugging aid: replay a model inside the engine
+		switch sort {
+		case SInt:
+			v, _ := new(big.Int).SetString(mv, 10)
+			return IntConst(v)
+		case SBool:
+			return BoolConst(mv == "true")
+		case SStr:
+			return StrConst(mv)
+		}
+	}
 	var t *Term
 	if sort == SInt {
 		t = VarRange(smtName, lo, hi)
@@ -542,6 +554,9 @@ func (p *Path) doAssert(fr *frame, cond value, label string) {
 		c = BoolConst(cv)
 	case *Term:
 		c = cv
+	}
+	if os.Getenv("GOSYM_TRACEASSERT") != "" {
+		fmt.Fprintf(os.Stderr, "[assert] %s cond=%s at %s decisions=%d\n", label, c, pos, len(p.decisions))
 	}
 	if c.isConst() && c.bval {
 		p.asserts = append(p.asserts, assertResult{Label: label, Status: "discharged", Pos: pos, Detail: "concrete"})
